@@ -299,3 +299,92 @@ def _gen_func_timer(rng, model):
             hist.append('clear')
     return Case(run, {'func': func, 'sync': sync, 'args': args, 'kwargs': kwargs,
                       '_func_traces': T._func_traces}, list(args), kwargs, note='history=' + ','.join(hist))
+
+
+# ----------------------------------------------------------------------------- KAISA assignment (C06)
+def _random_work(rng):
+    n = rng.choice([0, 1, 2, 3, 5, 9, 17])
+    work = {}
+    for i in range(n):
+        costs = [rng.choice([0.0, 1.0, 8.0, 27.0, 64.0, 1000.0, 4096.0, rng.randrange(0, 50) ** 3 * 1.0]) for _ in range(2)]
+        work[f'layer{i}'] = {'A': costs[0], 'G': costs[1]}
+    return work
+
+
+def _world(rng):
+    r = rng.random()
+    if r < 0.55:
+        return rng.randrange(1, 33)
+    if r < 0.9:
+        return rng.randrange(33, 200)
+    return rng.choice([49, 98, 103, 107, 161, 187, 196, 256, 512, 711])
+
+
+def _divisors(n):
+    return [k for k in range(1, n + 1) if n % k == 0]
+
+
+@builder('KAISAAssignment')
+def build_kaisa(rng):
+    from kfac.assignment import KAISAAssignment
+    for _ in range(50):
+        W = _world(rng)
+        k = rng.choice(_divisors(W))
+        try:
+            return KAISAAssignment(_random_work(rng) or {'l': {'A': 1.0, 'G': 2.0}}, local_rank=rng.randrange(W),
+                                   world_size=W, grad_worker_fraction=k / W,
+                                   group_func=lambda ranks: ('group', tuple(sorted(ranks))),
+                                   colocate_factors=rng.random() < 0.5)
+        except ValueError:
+            continue       # fractions the pinned tree rejects (finding F1) cannot be built
+    raise Skip('could not build')
+
+
+@gen('kfac.assignment:KAISAAssignment.__init__')
+def _gen_kaisa_init(rng, model):
+    from kfac.assignment import KAISAAssignment
+    W = _world(rng)
+    r = rng.random()
+    if r < 0.75:
+        k = rng.choice(_divisors(W))
+    elif r < 0.9:
+        k = rng.randrange(0, W + 1)
+    else:
+        k = rng.choice([-1, W + 1, 2 * W])
+    f = k / W
+    lr = rng.randrange(W) if rng.random() < 0.9 else rng.choice([-1, W, W + 3])
+    work = _random_work(rng)
+    co = rng.random() < 0.5
+    obj = KAISAAssignment.__new__(KAISAAssignment)
+    gf = lambda ranks: ('group', tuple(sorted(ranks)))   # noqa: E731
+    params = {'self': obj, 'work': work, 'local_rank': lr, 'world_size': W, 'grad_worker_fraction': f,
+              'group_func': gf, 'colocate_factors': co}
+    return Case(KAISAAssignment.__init__, params, [obj, work],
+                dict(local_rank=lr, world_size=W, grad_worker_fraction=f, group_func=gf, colocate_factors=co))
+
+
+def _kaisa_method(name, extra):
+    key = f'kfac.assignment:KAISAAssignment.{name}'
+
+    @gen(key)
+    def g(rng, model):
+        from kfac.assignment import KAISAAssignment
+        a = build_kaisa(rng)
+        layer = rng.choice(list(a._inv_assignments))
+        params = {'self': a}
+        args = [a]
+        if 'layer' in extra:
+            params['layer'] = layer
+            args.append(layer)
+        if 'factor' in extra:
+            f = rng.choice(list(a._inv_assignments[layer]))
+            params['factor'] = f
+            args.append(f)
+        return Case(getattr(KAISAAssignment, name), params, args, {})
+    return g
+
+
+for _n, _e in [('broadcast_gradients', ()), ('broadcast_inverses', ()), ('inv_worker', ('layer', 'factor')),
+               ('is_grad_worker', ('layer',)), ('src_grad_worker', ('layer',)), ('get_layers', ()),
+               ('get_factors', ('layer',)), ('factor_group', ('layer', 'factor'))]:
+    _kaisa_method(_n, _e)
